@@ -55,6 +55,16 @@ theorem bindCommit_ips (s : State) (pod : Pod) (ns name : String) (uid : Nat) (n
     · rename_i hc; simp [hc, Out.err] at h
     · exact map_toHInfo_ip s ips
 
+theorem bindCommitX_ips (s : State) (pod : Pod) (ns name : String) (uid : Nat) (node : String) (ips : List IP)
+    (h : (bindCommitX s pod ns name uid node ips).2.res = .ok) :
+    (bindCommitX s pod ns name uid node ips).2.ips.map (·.ip) = ips := by
+  unfold bindCommitX at h ⊢
+  split
+  · rename_i hc; simp [hc, Out.err] at h
+  · rename_i hc
+    rw [if_neg hc] at h
+    exact bindCommit_ips _ _ _ _ _ _ _ h
+
 /-- Bind when the addresses `ips` (one per requested range, or the one chosen owned address) are already owned: no
     allocation; "waiting for delete event" if a record of the key carries another incarnation's uid; otherwise the
     answer, if ok, lists exactly `ips` in request order -/
@@ -80,7 +90,7 @@ theorem bind_found (s : State) (ns name : String) (uid : Nat) (node : String) (c
       · cases hr : (bindLoop s (keyOf pod) node { policy := policyOf pod, node := node, uid := pod.uid } ips ips).2 with
         | ok =>
           simp only [hr] at hok ⊢
-          exact bindCommit_ips _ _ _ _ _ _ _ hok
+          exact bindCommitX_ips _ _ _ _ _ _ _ hok
         | err c => simp only [hr] at hok; cases hok
         | inadmissible => simp only [hr] at hok; cases hok
       · intro ip hm r hr
